@@ -77,6 +77,7 @@ func (a *adapterBase) Direction() Direction {
 }
 
 func (a *adapterBase) Begin(cfg AdapterConfig, cb ProgressCallback) error {
+	verifhook.Event("adapter.begin", a, "")
 	a.apiClient = cfg.APIClient()
 	a.remote = cfg.Remote()
 	a.cb = cb
